@@ -46,6 +46,9 @@ pub struct Scenario {
     pub prefill: u32,
     /// a batch appended by the main thread after the prefill (lets a reservation end exactly on a bucket boundary)
     pub pre_extend: u32,
+    /// indices reserved (and never written) by the main thread before the threads start, through an iterator that
+    /// reports this length and yields nothing: puts the next index deep into a big, not yet allocated bucket
+    pub pre_reserve: u32,
     pub threads: Vec<Vec<Op>>,
 }
 
@@ -280,6 +283,9 @@ pub fn run_scenario(sc: &Scenario, policy: Policy, run_id: u64, lines: &mut Vec<
         let n = vals.len();
         run_op(&vec, &sched, &Op::Extend(vals, n));
     }
+    if sc.pre_reserve > 0 {
+        run_op(&vec, &sched, &Op::Extend(Vec::new(), sc.pre_reserve as usize));
+    }
     sched.user("start", String::new());
     let mut handles = Vec::new();
     for (k, ops) in sc.threads.iter().enumerate() {
@@ -305,6 +311,12 @@ pub fn run_scenario(sc: &Scenario, policy: Policy, run_id: u64, lines: &mut Vec<
     let n = vec.count().min(400);
     for i in 0..n {
         run_op(&vec, &sched, &Op::Get(i));
+    }
+    if sc.pre_reserve > 0 {
+        // the indices behind the reserved block
+        for i in sc.pre_reserve..vec.count().min(sc.pre_reserve + 64) {
+            run_op(&vec, &sched, &Op::Get(i));
+        }
     }
     sched.user("call", "\"api\":\"drop_vec\"".to_string());
     let before: Vec<u64> = DROPS.lock().unwrap().clone();
@@ -371,7 +383,7 @@ pub fn memory_balance(run_id: u64, n: u32, cols: u32, plain: bool, lines: &mut V
 
 fn scenarios(thorough: bool, rng: &mut StdRng) -> Vec<Scenario> {
     let mut v = Vec::new();
-    let s = |name: &str, cap: u32, cols: u32, prefill: u32, threads: Vec<Vec<Op>>| Scenario { name: name.into(), capacity: cap, cols, prefill, pre_extend: 0, threads };
+    let s = |name: &str, cap: u32, cols: u32, prefill: u32, threads: Vec<Vec<Op>>| Scenario { name: name.into(), capacity: cap, cols, prefill, pre_extend: 0, pre_reserve: 0, threads };
     use Op::*;
     v.push(s("push-push", 0, 1, 0, vec![vec![Push(1)], vec![Push(2)]]));
     v.push(s("push-get", 0, 1, 0, vec![vec![Push(1), Push(2)], vec![Get(0), Get(1), Get(0)]]));
@@ -389,6 +401,12 @@ fn scenarios(thorough: bool, rng: &mut StdRng) -> Vec<Scenario> {
     v.push(s("lazy-bucket-get", 0, 1, 20, vec![vec![Extend((1..=15).collect(), 15)], vec![Get(32), Get(33), Snapshot(30), Get(32)]]));
     v.push(s("lazy-bucket-push-get", 0, 2, 20, vec![vec![Extend((1..=11).collect(), 11), Push(50), Push(51)], vec![Get(32), Get(31), Get(32), Count]]));
     v.push(s("skip-bucket", 0, 1, 20, vec![vec![Extend(vec![1], 110), Push(7)], vec![Get(130), Get(20)]]));
+    // several threads meet at a big bucket nobody has allocated (initialising 2^20 entries takes long enough for the
+    // loser of the allocation race to finish its push): the push of the loser must stay visible
+    let n0 = 32 * ((1u32 << 15) - 1) + 3 * (1u32 << 18);
+    let mut b = s("big-bucket-race", 0, 1, 0, vec![vec![Push(1), Get(n0), Get(n0 + 1), Get(n0 + 2)], vec![Push(2), Get(n0), Get(n0 + 1), Get(n0 + 2)], vec![Push(3), Get(n0 + 2), Get(n0 + 1), Get(n0)]]);
+    b.pre_reserve = n0;
+    v.push(b);
     // the index space is exhausted by a batch that reports an absurd length (and is refused after it has reserved the
     // indices): every later push has to be refused too, none may be handed an index that is already in use
     v.push(s("capacity-exhausted", 0, 1, 3, vec![vec![ExtendHuge, PushChecked(1), PushChecked(2)], vec![PushChecked(3), Get(0), Get(1)]]));
